@@ -281,7 +281,8 @@ def run(tier="quick"):
     chk.rule("N4", "the constructors whose result is handed to a protocol/service lookup return objects that carry text")
     check_lookup_names(chk, prog)
     parse = prog.need("spif_url_parse")
-    slices = sum(1 for c in X.calls_in(parse.body) if (X.callee_name(c) or "").endswith("_from_buff"))
+    from ..listrules import unit_closure
+    slices = sum(1 for g_ in unit_closure(parse) for c in X.calls_in(g_.body) if (X.callee_name(c) or "").endswith("_from_buff"))
     chk.count("functions", n, floor=4)
     chk.count("component_slices_in_parse", slices, floor=6)
     chk.count("undecided_obligations", nund)
